@@ -320,6 +320,42 @@ Proof.
     rewrite H2 in IH. destruct IH as [I1 I2]. split; [exact I1|congruence].
 Qed.
 
+(* the state after the path part of a parse (raw, with the real 0-encoding): either nothing was written and the
+   object is as before, or PATH_PREFIX / PATH are written and the last written part is PATH *)
+Lemma ser_pathname_raw l s file :
+  s_r s = conc ps0 m f 0 -> s_last s = (m - 1)%nat -> s_file s = file -> pushed_ok l ->
+  let segs := fold_left (pinterp file) l [] in
+  let s' := run false s (flat_map cops l ++ [OCommitPath]) in
+  s_file s' = file /\
+  ((segs = [] /\ s_r s' = conc ps0 m f 0 /\ s_last s' = (m - 1)%nat) \/
+   (s_r s' = conc (setp (setp ps0 8 (pstr segs)) 7 (new_prefix f segs)) 9 f (N.of_nat (length segs)) /\ s_last s' = P_PATH)).
+Proof.
+  intros Hr Hl Hf Hok. cbv zeta. rewrite run_app.
+  assert (HJ0 : J ps0 m f s []) by (left; auto).
+  destruct (ser_path_ops l s [] HJ0 ltac:(constructor) Hok) as [HJ Hfile]. cbv zeta in HJ, Hfile. rewrite Hf in HJ, Hfile.
+  set (segs := fold_left (pinterp file) l []) in *.
+  cbn [run fold_left step]. unfold v_commit_path. cbn [w_r s_r s_file s_last]. split; [exact Hfile|].
+  pose proof HPW0 as [Hlen Hn Hsch Htail].
+  destruct HJ as [[Hs0 [Hr' Hl']]|[Hr' Hl']].
+  - left. rewrite Hr'. split; [exact Hs0|]. split; [|exact Hl'].
+    unfold adjust_path_prefix.
+    change (r_segs (conc ps0 m f 0)) with 0. change (1 <? 0) with false. rewrite Bool.andb_false_r.
+    assert (He : r_is_empty (conc ps0 m f 0) P_PATH_PREFIX = true).
+    { unfold r_is_empty, P_PATH_PREFIX.
+      change (E (conc ps0 m f 0) 7) with (en (conc ps0 m f 0) 7). change (E (conc ps0 m f 0) 6) with (en (conc ps0 m f 0) 6).
+      rewrite !en_conc by lia. unfold kstart.
+      destruct (Nat.ltb_spec 7 m); destruct (Nat.ltb_spec 6 m); try lia; apply N.leb_le; try lia.
+      rewrite (pre_S 7) by lia. rewrite H7, len_nil. lia. }
+    rewrite He. reflexivity.
+  - right. rewrite Hr'. split; [|exact Hl'].
+    assert (HP9 : PW (setp ps0 8 (pstr segs)) 9) by (apply (PW9 ps0 m f); assumption).
+    assert (Hl9 : length (setp ps0 8 (pstr segs)) = 11%nat) by (destruct HP9; assumption).
+    rewrite (adjust_conc (setp ps0 8 (pstr segs)) 9 f segs HP9 ltac:(lia)).
+    + reflexivity.
+    + rewrite nth_setp by lia. reflexivity.
+    + left. rewrite nth_setp by lia. cbn [Nat.eqb]. exact H7.
+Qed.
+
 (* the path part of a parse: any sequence of segment appends and shortenings, then commit_path *)
 Theorem ser_pathname_pieces l s file :
   s_r s = conc ps0 m f 0 -> s_last s = (m - 1)%nat -> s_file s = file -> pushed_ok l ->
@@ -327,26 +363,11 @@ Theorem ser_pathname_pieces l s file :
   norm_tail (s_r (run false s (flat_map cops l ++ [OCommitPath]))) =
   conc (setp (setp ps0 8 (pstr segs)) 7 (new_prefix f segs)) 11 f (N.of_nat (length segs)).
 Proof.
-  intros Hr Hl Hf Hok. cbv zeta. rewrite run_app.
-  assert (HJ0 : J ps0 m f s []) by (left; auto).
-  destruct (ser_path_ops l s [] HJ0 ltac:(constructor) Hok) as [HJ Hfile]. cbv zeta in HJ, Hfile. rewrite Hf in HJ.
-  set (segs := fold_left (pinterp file) l []) in *.
-  cbn [run fold_left step]. unfold v_commit_path. cbn [w_r s_r].
+  intros Hr Hl Hf Hok. cbv zeta.
+  destruct (ser_pathname_raw l s file Hr Hl Hf Hok) as [_ Hraw]. cbv zeta in Hraw.
   pose proof HPW0 as [Hlen Hn Hsch Htail].
-  destruct HJ as [[Hs0 [Hr' Hl']]|[Hr' Hl']].
-  - (* nothing was written *)
-    rewrite Hr', Hs0.
-    assert (Hadj : adjust_path_prefix (conc ps0 m f 0) = conc ps0 m f 0).
-    { unfold adjust_path_prefix.
-      change (r_segs (conc ps0 m f 0)) with 0. change (1 <? 0) with false. rewrite Bool.andb_false_r.
-      assert (He : r_is_empty (conc ps0 m f 0) P_PATH_PREFIX = true).
-      { unfold r_is_empty, P_PATH_PREFIX.
-        change (E (conc ps0 m f 0) 7) with (en (conc ps0 m f 0) 7). change (E (conc ps0 m f 0) 6) with (en (conc ps0 m f 0) 6).
-        rewrite !en_conc by lia. unfold kstart.
-        destruct (Nat.ltb_spec 7 m); destruct (Nat.ltb_spec 6 m); try lia; apply N.leb_le; try lia.
-        rewrite (pre_S 7) by lia. rewrite H7, len_nil. lia. }
-      rewrite He. reflexivity. }
-    rewrite Hadj, (norm_tail_conc ps0 m f 0 HPW0).
+  destruct Hraw as [[Hs0 [Hr' _]]|[Hr' _]]; rewrite Hr'.
+  - rewrite Hs0, (norm_tail_conc ps0 m f 0 HPW0).
     cbn [pstr map concat length N.of_nat].
     assert (Hnp : new_prefix f [] = []) by (unfold new_prefix; cbn [length N.of_nat]; change (1 <? 0) with false; rewrite Bool.andb_false_r; reflexivity).
     rewrite Hnp.
@@ -355,15 +376,11 @@ Proof.
     rewrite Hs8.
     assert (Hs7 : setp ps0 7 [] = ps0) by (rewrite <- H7 at 1; apply setp_same; lia).
     rewrite Hs7. reflexivity.
-  - rewrite Hr'.
+  - set (segs := fold_left (pinterp file) l []) in *.
     assert (HP9 : PW (setp ps0 8 (pstr segs)) 9) by (apply (PW9 ps0 m f); assumption).
-    assert (Hl9 : length (setp ps0 8 (pstr segs)) = 11%nat) by (destruct HP9; assumption).
-    rewrite (adjust_conc (setp ps0 8 (pstr segs)) 9 f segs HP9 ltac:(lia)).
-    + apply norm_tail_conc.
-      pose proof (setp_PW (setp ps0 8 (pstr segs)) 9 7 (new_prefix f segs) HP9 ltac:(lia)) as HP.
-      replace (Nat.max 9 8) with 9%nat in HP by lia. exact HP.
-    + rewrite nth_setp by lia. reflexivity.
-    + left. rewrite nth_setp by lia. cbn [Nat.eqb]. exact H7.
+    apply norm_tail_conc.
+    pose proof (setp_PW (setp ps0 8 (pstr segs)) 9 7 (new_prefix f segs) HP9 ltac:(lia)) as HP.
+    replace (Nat.max 9 8) with 9%nat in HP by lia. exact HP.
 Qed.
 End PathTheorem.
 
